@@ -150,7 +150,7 @@ def c02(prop, tier):
 
 def lc_cfg():
     return ('Lifecycle.cfg', '''SPECIFICATION Spec
-CONSTANTS CloseKinds = {"store", "store-twice", "instance", "instance-twice", "drop"}
+CONSTANTS CloseKinds = {"store", "store-twice", "instance", "instance-twice", "instance-cancelled", "drop"}
   PostOps = {"put", "get", "load", "sync", "close", "drop", "subscribe"}
 INVARIANTS NothingLeftRunning DataSurvives
 CHECK_DEADLOCK FALSE
